@@ -111,6 +111,12 @@ class Flattener:
             return self.expr(e.e, pre)       # operands are U32 already: the cast is the identity
         if isinstance(e, Un) and e.op == "lnot":
             return f"(.lnot {self.expr(e.e, pre)})"
+        if isinstance(e, Bin) and e.op == "mul" and any(isinstance(x, Cast) and x.ty == "u64" and not getattr(x, "ptr", 0)
+                                                       for x in (e.a, e.b)):
+            # `(size_t) a * b`: the product is computed in 64 bits (no U32 wrap)
+            a = self.expr(e.a.e if isinstance(e.a, Cast) and e.a.ty == "u64" else e.a, pre)
+            b = self.expr(e.b.e if isinstance(e.b, Cast) and e.b.ty == "u64" else e.b, pre)
+            return f"(.wmul {a} {b})"
         if isinstance(e, Bin) and e.op in BINOPS:
             a = self.expr(e.a, pre)
             b = self.expr(e.b, pre)
@@ -172,6 +178,13 @@ class Flattener:
             if m:
                 return ["." + m]
             if isinstance(e, AssignE) and e.op == "=":
+                if isinstance(e.lhs, Var) and isinstance(e.rhs, Cast) and getattr(e.rhs, "ptr", 0) == 1 \
+                        and isinstance(e.rhs.e, Call) and e.rhs.e.f == "realloc" and len(e.rhs.e.args) == 2:
+                    if self.types.get(e.lhs.n) != ("u8", 1):
+                        self.fail("result of realloc assigned to a non-pointer local")
+                    pp = self.expr(e.rhs.e.args[0], pre)
+                    nn = self.expr(e.rhs.e.args[1], pre)
+                    return pre + [f".realloc {self.reg(e.lhs.n)} {pp} {nn}"]
                 if isinstance(e.lhs, Var):
                     t = self.expr(e.rhs, pre)
                     return pre + [f".set {self.reg(e.lhs.n)} {t}"]
@@ -185,8 +198,16 @@ class Flattener:
                 elif isinstance(dst, Bin) and dst.op == "add" and isinstance(dst.a, Var) \
                         and self.types.get(dst.a.n) == ("u8", 1):
                     ptr, off = self.reg(dst.a.n), self.expr(dst.b, pre)
+                elif self.is_field(dst) and dst.name == "data":
+                    ptr, off = self.temp("data"), "(.lit 0)"
+                    pre.append(f".read {ptr} .data")
+                elif isinstance(dst, Bin) and dst.op == "add" and self.is_field(dst.a) and dst.a.name == "data":
+                    ptr = self.temp("data")
+                    pre.append(f".read {ptr} .data")
+                    off = self.expr(dst.b, pre)
                 else:
-                    self.fail("memset destination is not `<U8* local>` or `<U8* local> + <U32 offset>`")
+                    self.fail("memset destination is not `<pointer>` or `<pointer> + <offset>` with pointer = a U8* local "
+                              "or memory->data")
                 v = self.expr(e.args[1], pre)
                 n = self.expr(e.args[2], pre)
                 return pre + [f".memset {ptr} {off} {v} {n}"]
